@@ -12,10 +12,11 @@ Local Open Scope N_scope.
 Theorem C47_undrop_restores_partial :
   forall s n v d a ops n',
   lookup (fst n) (live s) = Some (v, d) ->
-  first_of_class (fst n, v) (dropped s) -> fst a <> fst n ->
+  let sp := if is_root s (fst n) then snd n else v in
+  first_of_class (fst n, sp) (dropped s) -> fst a <> fst n ->
   Forall (other_op (fst n)) ops -> fst n' = fst n ->
   exists s1 s3, step s (Drop n a) = Some s1 /\ step (run s1 ops) (Undrop n') = Some s3 /\
-    lookup (fst n) (live s3) = Some (v, d) /\
+    lookup (fst n) (live s3) = Some (sp, d) /\
     forall j, j <> fst n -> lookup j (live s3) = lookup j (live (run s1 ops)).
 Proof. exact undrop_restores. Qed.
 Print Assumptions C47_undrop_restores_partial.
@@ -23,10 +24,10 @@ Print Assumptions C47_undrop_restores_partial.
 (* ... because without it the clause is false on the faithful model (and on the engine) *)
 Theorem C47_undrop_restores_refuted :
   exists ops n d a s1 s3,
-    let s := run {| live := [(0, (2, [1000]))]; dropped := [] |} ops in
+    let s := run {| live := [(0, (2, [1000]))]; dropped := []; root := Some 0 |} ops in
     lookup (fst n) (live s) = Some (snd n, d) /\
     step s (Drop n a) = Some s1 /\ step s1 (Undrop n) = Some s3 /\
-    lookup (fst n) (live s3) <> Some (snd n, d).
+    exists v' d', lookup (fst n) (live s3) = Some (v', d') /\ d' <> d.
 Proof. exact undrop_restores_refuted. Qed.
 Print Assumptions C47_undrop_restores_refuted.
 
@@ -53,7 +54,7 @@ Print Assumptions C47_purge_final.
 
 Theorem C47_drop_drop :
   forall s n v d2 d1 a,
-  lookup (fst n) (live s) = Some (v, d2) ->
+  lookup (fst n) (live s) = Some (v, d2) -> is_root s (fst n) = false ->
   dget (fst n, v) (dropped s) = Some d1 ->
   fresh_class (fst a) s -> fst a <> fst n ->
   exists s1, step s (Drop n a) = Some s1 /\
